@@ -49,30 +49,54 @@ Proof.
       rewrite calc_app, Hc, Hlen. cbn [Merkle.calc Nat.add]. rewrite Hb. reflexivity.
 Qed.
 
-(* closure: all non-empty subtrees of version n are present with their true children *)
-Definition Closed (m : rht) (n : nat) := forall h k, k * 2^(S h) < n ->
+(* closure (up to height H): all non-empty subtrees of version n below the root level are present with their true children *)
+Definition Closed (H : nat) (m : rht) (n : nat) := forall h k, h < H -> k * 2^(S h) < n ->
   m (sub (S h) k n) = Some (sub h (2*k) n, sub h (2*k+1) n).
 
-Theorem walk_closed m n : Closed m n -> forall h j, j < n ->
+Theorem walk_closed H m n : Closed H m n -> forall h j, h <= H -> j < n ->
   exists s, walk m h (sub h (j / 2^h) n) j = Some (s, f j).
 Proof.
-  intros Hc. induction h as [|h IH]; intros j Hj; cbn [Merkle.walk].
+  intros Hc. induction h as [|h IH]; intros j HhH Hj; cbn [Merkle.walk].
   - eexists. rewrite Nat.pow_0_r, Nat.div_1_r. cbn [MerkleSpec.sub].
     assert (E : j <? n = true) by (apply Nat.ltb_lt; lia). rewrite E. reflexivity.
   - pose proof (div_pow_bounds j (S h)) as Hb.
     rewrite (Hc h (j / 2^(S h))) by lia.
-    destruct (IH j Hj) as [s Hs].
+    destruct (IH j ltac:(lia) Hj) as [s Hs].
     rewrite div_succ_pow. rewrite testbit_div.
     destruct (Nat.odd (j / 2^h)) eqn:Ho.
     + pose proof (odd_div2 _ Ho) as E. rewrite <- E. rewrite Hs. eexists; reflexivity.
     + pose proof (even_div2 _ Ho) as E. rewrite <- E. rewrite Hs. eexists; reflexivity.
 Qed.
 
+
+(* the siblings found under a closed version are determined by the leaf function alone (not by the node table) *)
+Fixpoint sibs (h j n : nat) : list hash :=
+  match h with
+  | 0 => []
+  | S h' => sibs h' j n ++ [sub h' (if Nat.testbit j h' then j / 2^h' - 1 else j / 2^h' + 1) n]
+  end.
+Theorem walk_closed_sibs H m n : Closed H m n -> forall h j, h <= H -> j < n ->
+  walk m h (sub h (j / 2^h) n) j = Some (sibs h j n, f j).
+Proof.
+  intros Hc. induction h as [|h IH]; intros j HhH Hj; cbn [Merkle.walk sibs].
+  - rewrite Nat.pow_0_r, Nat.div_1_r. cbn [MerkleSpec.sub].
+    assert (E : j <? n = true) by (apply Nat.ltb_lt; lia). rewrite E. reflexivity.
+  - pose proof (div_pow_bounds j (S h)) as Hb.
+    rewrite (Hc h (j / 2^(S h))) by lia.
+    pose proof (IH j ltac:(lia) Hj) as Hs.
+    rewrite div_succ_pow. rewrite testbit_div.
+    destruct (Nat.odd (j / 2^h)) eqn:Ho.
+    + pose proof (odd_div2 _ Ho) as E. rewrite <- E. rewrite Hs.
+      replace (j / 2 ^ h - 1) with (2 * (j / 2 ^ h / 2)) by lia. reflexivity.
+    + pose proof (even_div2 _ Ho) as E. rewrite <- E. rewrite Hs.
+      replace (j / 2 ^ h + 1) with (2 * (j / 2 ^ h / 2) + 1) by lia. reflexivity.
+Qed.
+
 (* C08 for the append-only tree: every covered index under every closed version verifies against the true leaf *)
-Corollary proof_verifies m n H j : WF m -> Closed m n -> j < n -> j < 2^H ->
+Corollary proof_verifies m n H j : WF m -> Closed H m n -> j < n -> j < 2^H ->
   exists s, walk m H (sub H 0 n) j = Some (s, f j) /\ calc 0 s (f j) j = sub H 0 n.
 Proof.
-  intros Hw Hc Hj Hlt. destruct (walk_closed m n Hc H j Hj) as [s Hs].
+  intros Hw Hc Hj Hlt. destruct (walk_closed H m n Hc H j (le_n _) Hj) as [s Hs].
   rewrite Nat.div_small in Hs by lia. exists s. split; [exact Hs|].
   exact (proj2 (walk_calc m Hw _ _ _ _ _ Hs)).
 Qed.
@@ -88,8 +112,8 @@ Proof.
   destruct (m (node l r)) as [[l' r']|] eqn:E; [|reflexivity].
   apply Hw in E. apply node_inj in E as [-> ->]. reflexivity.
 Qed.
-Lemma Closed_ins m n k v : Closed m n -> Closed (ins m k v) n.
-Proof. intros Hc h k' Hk. apply ins_keeps, Hc, Hk. Qed.
+Lemma Closed_ins H m n k v : Closed H m n -> Closed H (ins m k v) n.
+Proof. intros Hc h k' Hh Hk. apply ins_keeps, Hc; assumption. Qed.
 
 (* the entries written while appending leaf i (spec form; climb_next shows Go computes exactly these) *)
 Fixpoint ins_path (m : rht) (i : nat) (H : nat) : rht :=
@@ -112,12 +136,10 @@ Proof.
   - cbn zeta in *. apply ins_keeps. apply IH. lia.
 Qed.
 
-Theorem append_keeps_closed m i H : WF m -> Closed m i -> i < 2^H ->
-  (forall h k, H <= h -> k * 2^(S h) < S i -> False) ->    (* nothing above the root *)
-  Closed (ins_path m i H) (S i).
+Theorem append_keeps_closed m i H : WF m -> Closed H m i -> i < 2^H ->
+  Closed H (ins_path m i H) (S i).
 Proof.
-  intros Hw Hc Hi Htop h k Hk.
-  destruct (Nat.lt_ge_cases h H) as [Hh|Hh]; [|exfalso; eapply Htop; eassumption].
+  intros Hw Hc Hi h k Hh Hk.
   pose proof (div_pow_bounds i (S h)) as Hb.
   destruct (Nat.eq_dec k (i / 2^(S h))) as [->|Hne].
   - apply (ins_path_has m i H h Hw Hh).
@@ -127,8 +149,12 @@ Proof.
     assert (E1 : sub (S h) k (S i) = sub (S h) k i) by (apply sub_full; lia).
     assert (E2 : sub h (2*k) (S i) = sub h (2*k) i) by (apply sub_full; cbn [Nat.pow] in *; nia).
     assert (E3 : sub h (2*k+1) (S i) = sub h (2*k+1) i) by (apply sub_full; cbn [Nat.pow] in *; nia).
-    rewrite E1, E2, E3. apply Hc. nia.
+    rewrite E1, E2, E3. apply Hc; [exact Hh|nia].
 Qed.
+Lemma Closed_ins_path H m n i H' : Closed H m n -> Closed H (ins_path m i H') n.
+Proof. intros Hc h k Hh Hk. apply ins_path_keeps, Hc; assumption. Qed.
+Lemma Closed_0 H m : Closed H m 0.
+Proof. intros h k _ Hk. lia. Qed.
 End Rht.
 
 
